@@ -15,6 +15,8 @@ for pid in sorted(os.listdir("/tmp/seeds")):
         if not ok:
             print("NOT CONFIRMED", pid, v, c); continue
         out = os.path.join("/verif/seeded", pid + v)
+        if os.path.exists(out) and "--force" not in sys.argv:
+            continue  # already imported (possibly rebased since): never overwrite
         os.makedirs(out, exist_ok=True)
         shutil.copy(os.path.join(s, "patch.diff"), out)
         shutil.copy(os.path.join(s, "demo.py"), out)
